@@ -112,7 +112,12 @@ func Generate(r *vc.Rand, id string, o Opts) *spec.Spec {
 	if o.Profile == "errors" && x.chance(1, 2) || x.chance(1, 8) {
 		e := &spec.ErrorDecl{Name: "api_" + x.r.Pick("unauthorized", "teapot", "gone")}
 		s.API.Errors = append(s.API.Errors, e)
-		s.API.HTTPErrs = append(s.API.HTTPErrs, &spec.HTTPError{Name: e.Name, Status: pickErrStatus(x.r)})
+		ahe := &spec.HTTPError{Name: e.Name, Status: pickErrStatus(x.r)}
+		if x.chance(1, 3) {
+			ahe.Headers = append(ahe.Headers, spec.Loc{Attr: "message", Wire: "X-Api-Err-Message"})
+			s.AddFeature("error-header", "inherited-error-header")
+		}
+		s.API.HTTPErrs = append(s.API.HTTPErrs, ahe)
 		s.AddFeature("api-error")
 	}
 	if len(s.Schemes) > 0 && (x.chance(1, 3) || o.Profile == "security" && x.chance(1, 4)) {
